@@ -52,6 +52,13 @@ func (a *c03Account) ByHeight(h uint64) (*nom.AccountBlock, error) {
 	verifAssert(false, "model: only the frontier block of the account chain is read")
 	return nil, nil
 }
+func (a *c03Account) ByHash(h types.Hash) (*nom.AccountBlock, error) {
+	// only used to word an error message (cemented-on-top vs height-exists)
+	if verifNondetBool("account.ByHash finds a block") {
+		return &nom.AccountBlock{Hash: h}, nil
+	}
+	return nil, nil
+}
 func (a *c03Account) IsReceived(hash types.Hash) bool {
 	if v, ok := a.received[hash]; ok {
 		return v
